@@ -3,6 +3,8 @@
  */
 
 #include <ctype.h>
+#include <errno.h>
+#include <math.h>
 #include <stdlib.h>
 
 #include "convert.h"
@@ -28,6 +30,7 @@ extern int mpt_cdouble(double *val, const char *src, const double range[2])
 	if (!*src) {
 		return 0;
 	}
+	errno = 0;
 	tmp = strtod(src, &end);
 	
 	if (end == src) {
@@ -38,6 +41,10 @@ extern int mpt_cdouble(double *val, const char *src, const double range[2])
 			}
 		}
 		return 0;
+	}
+	/* finite numeral beyond the type range */
+	if (errno == ERANGE && (tmp == HUGE_VAL || tmp == -HUGE_VAL)) {
+		return MPT_ERROR(BadValue);
 	}
 	if (range && (range[0] > tmp || tmp > range[1])) {
 		return MPT_ERROR(BadValue);
